@@ -206,3 +206,65 @@ package dvid
 //@ func Point3d.Equals
 //@   prop C13
 //@   ensures result == (p[0] == p2[0] && p[1] == p2[1] && p[2] == p2[2])
+
+// ---- block iteration over a request box and extent tracking (C17) ----
+
+// itwf(it): the iterator's cached end key encodes its end block
+//@ spec func itwf(it *IndexZYXIterator) bool = len(it.endBytes) == 12 && be32(it.endBytes, 0) == zyx32(it.endBlock[2]) && be32(it.endBytes, 4) == zyx32(it.endBlock[1]) && be32(it.endBytes, 8) == zyx32(it.endBlock[0])
+
+// zyxle: (x,y,z) <= (ex,ey,ez) in z-major, then y, then x order
+//@ spec func zyxle(x int32, y int32, z int32, ex int32, ey int32, ez int32) bool = z < ez || (z == ez && (y < ey || (y == ey && x <= ex)))
+
+//@ func NewIndexZYXIterator
+//@   prop C17
+//@   ensures result != nil && itwf(result)
+//@   ensures result.x == start[0] && result.y == start[1] && result.z == start[2]
+//@   ensures result.begBlock[0] == start[0] && result.begBlock[1] == start[1] && result.begBlock[2] == start[2]
+//@   ensures result.endBlock[0] == end[0] && result.endBlock[1] == end[1] && result.endBlock[2] == end[2]
+
+// Valid: the cursor has not passed the end block (in ZYX order). In particular every row (y, z) of the
+// box with x at the box's first column is valid, and the row after the last one is not.
+//@ func IndexZYXIterator.Valid
+//@   prop C17
+//@   requires it != nil && itwf(it)
+//@   modifies nothing
+//@   ensures result == zyxle(it.x, it.y, it.z, it.endBlock[0], it.endBlock[1], it.endBlock[2])
+
+// NextSpan: row-major successor inside the box [begBlock, endBlock]
+//@ func IndexZYXIterator.NextSpan
+//@   prop C17
+//@   requires it != nil && it.y < 2147483647 && it.z < 2147483647
+//@   modifies it.x, it.y, it.z
+//@   ensures it.x == it.begBlock[0]
+//@   ensures old(it.y) < it.endBlock[1] ==> it.y == old(it.y) + 1 && it.z == old(it.z)
+//@   ensures old(it.y) >= it.endBlock[1] ==> it.y == it.begBlock[1] && it.z == old(it.z) + 1
+
+// IndexSpan: the current row, from the box's first to its last column
+//@ func IndexZYXIterator.IndexSpan
+//@   prop C17
+//@   requires it != nil
+//@   ensures err == nil && typeis(beg, "*dvid.IndexZYX") && typeis(end, "*dvid.IndexZYX")
+//@   ensures iface_ptr(beg, "*dvid.IndexZYX")[0] == it.begBlock[0] && iface_ptr(beg, "*dvid.IndexZYX")[1] == it.y && iface_ptr(beg, "*dvid.IndexZYX")[2] == it.z
+//@   ensures iface_ptr(end, "*dvid.IndexZYX")[0] == it.endBlock[0] && iface_ptr(end, "*dvid.IndexZYX")[1] == it.y && iface_ptr(end, "*dvid.IndexZYX")[2] == it.z
+
+// Extent tracking: the caller persists the extents only when the result is true, so a change of either
+// bound must be reported (ghosts capture what Min / Max answered).
+//@ func Extents.AdjustPoints
+//@   prop C17
+//@   requires ext != nil
+//@   safety_off
+//@   lockbalance
+//@   modifies *
+//@   ghost minCh bool = false
+//@   ghostset at "if ext.MaxPoint == nil {": minCh = minChanged
+//@   ensures minCh ==> result
+
+//@ func Extents.AdjustIndices
+//@   prop C17
+//@   requires ext != nil
+//@   safety_off
+//@   lockbalance
+//@   modifies *
+//@   ghost minCh bool = false
+//@   ghostset at "if ext.MaxIndex == nil {": minCh = minChanged
+//@   ensures minCh ==> result
